@@ -184,6 +184,25 @@ func AlterKeyY(key []byte) []byte {
 	return c
 }
 
+// AltForm returns the other form of a dag-pb block identifier: CIDv1/dag-pb for a CIDv0 and vice versa (same
+// multihash, different identifier); any other identifier is returned unchanged.
+func AltForm(c cid.Cid) cid.Cid {
+	switch {
+	case c.Version() == 0:
+		return cid.NewCidV1(cid.DagProtobuf, c.Hash())
+	case c.Type() == cid.DagProtobuf && c.Prefix().MhType == 0x12 && c.Prefix().MhLength == 32:
+		return cid.NewCidV0(c.Hash())
+	}
+	return c
+}
+
+// Native reports whether the harness runs as an ordinary Go program (replay) rather than under the engine.
+func Native() bool { return true }
+
+// AssumeKeyY tells the engine which shape the key has (see the harness that uses it); natively the harness has
+// drawn a key of that shape already.
+func AssumeKeyY(key interface{}, leadingZero bool) {}
+
 func Cid(i int) cid.Cid { return cidFor(fmt.Sprintf("c%d", i)) }
 
 // FreshCid returns a CID distinct from every other one handed out.
